@@ -258,6 +258,9 @@ def check():
         # declaration still reach the definition graph (shared with C09)
         import props.c09 as c09
         c09.graph_lemmas(o, L, S, M, E, structural, on_sat)
+        # ... and on every instantiation of a rec getting a name of its own (shared with C09)
+        c09.naming_lemmas(o, L, S, M, E, (M.one(r"^(eval::)?eval_recursion$"), M.one(r"^eval::<impl[^>]*>::node_identifier$"), M.one(r"^eval::<impl[^>]*>::push_scope$"),
+                                         M.sel("eval", "new", ret=r"eval::Context")), structural, on_sat)
     except KeyError as exn:
         o.inconc(str(exn)[:200])
 
